@@ -108,6 +108,48 @@ fn main() {
       }
       h::util::write_json(&args[3], &json!({"behaviours": beh.len(), "runs": runs, "segmentations": segs, "with_issues": outs.len(), "outcomes": outs.into_iter().take(100).collect::<Vec<_>>()}));
     }
+    "rpq" => {
+      // vh rpq <behaviours.jsonl|-> <out.json> [--random N] [--perturb] [--traces file]
+      let perturb = args.iter().any(|a| a == "--perturb");
+      let nrand: usize = args.iter().position(|a| a == "--random").and_then(|i| args.get(i + 1)).and_then(|s| s.parse().ok()).unwrap_or(0);
+      let traces_path = args.iter().position(|a| a == "--traces").and_then(|i| args.get(i + 1)).cloned();
+      let seed = h::util::seed_from_env();
+      h::util::quiet_panics();
+      let mut outs = Vec::new();
+      let mut guided = 0usize;
+      let mut steps = 0usize;
+      if args[2] != "-" {
+        let beh: Vec<h::rpq::Behaviour> = h::util::read_jsonl(&args[2]);
+        for (i, b) in beh.iter().enumerate() {
+          let o = h::rpq::run_guided(i, b, seed, perturb);
+          guided += 1;
+          steps += o.steps;
+          if !o.issues.is_empty() {
+            outs.push(serde_json::to_value(&o).unwrap());
+          }
+        }
+      }
+      let mut traces: Vec<serde_json::Value> = Vec::new();
+      use rand::SeedableRng;
+      let mut rng = rand::rngs::StdRng::seed_from_u64(seed ^ 0xABCD);
+      for i in 0..nrand {
+        let setup = h::rpq::random_setup(&mut rng);
+        let o = h::rpq::run_random(i, &setup, seed);
+        steps += o.steps;
+        if traces.len() < 400 {
+          traces.push(json!({"setup": {"pipes": setup.pipes, "cons": setup.cons, "cap": setup.cap, "readycap": setup.readycap, "batchn": setup.batchn, "scripts": setup.scripts, "modes": setup.modes}, "trace": o.trace}));
+        }
+        if !o.issues.is_empty() {
+          let mut v = serde_json::to_value(&o).unwrap();
+          v["setup"] = json!({"pipes": setup.pipes, "cons": setup.cons, "cap": setup.cap, "readycap": setup.readycap, "scripts": setup.scripts, "modes": setup.modes});
+          outs.push(v);
+        }
+      }
+      if let Some(tp) = traces_path {
+        h::util::write_json(&tp, &traces);
+      }
+      h::util::write_json(&args[3], &json!({"guided": guided, "random": nrand, "steps": steps, "with_issues": outs.len(), "outcomes": outs.into_iter().take(100).collect::<Vec<_>>()}));
+    }
     other => h::util::tool_error(&format!("unknown subcommand {}", other)),
   }
 }
